@@ -1,6 +1,8 @@
 """Reference Manifest grammar (GLEP 74), written independently of gemato.manifest.
 
 parse(text) -> ('ok', entries) | ('reject', reason) | ('dontcare', reason)
+parse_ex(text) -> the same plus a third element: for 'reject' the dict
+    {'line': index, 'fields': [...]} of the first rejected line, else None
 
 Entries are plain tuples:
   ('TIMESTAMP', 'YYYY-MM-DDTHH:MM:SSZ')
@@ -113,6 +115,10 @@ def unescape_path(s):
 
 _TS_CANON = re.compile(r'^(\d{4})-(\d{2})-(\d{2})T(\d{2}):(\d{2}):(\d{2})Z$', re.A)
 _TS_LENIENT = re.compile(r'^\d{1,4}-\d{1,2}-\d{1,2}T\d{1,2}:\d{1,2}:\d{1,2}Z$', re.A)
+# the same shape written with non-ASCII decimal digits and/or lower-case t/z: whether
+# that is "malformed" is arguable (RFC 3339 allows lower case; the size field has the
+# same don't-care for non-ASCII digits)
+_TS_ARGUABLE = re.compile(r'^\d{1,4}-\d{1,2}-\d{1,2}[Tt]\d{1,2}:\d{1,2}:\d{1,2}[Zz]$')
 _SIZE_OK = re.compile(r'^[0-9]+$', re.A)
 
 
@@ -137,6 +143,8 @@ def parse_line(fields):
         if not m:
             if _TS_LENIENT.match(fields[1]):
                 return ('dontcare', 'non-canonical timestamp digits')
+            if _TS_ARGUABLE.match(fields[1]):
+                return ('dontcare', 'timestamp with non-ASCII digits or lower-case t/z')
             return ('reject', 'malformed timestamp')
         y, mo, d, h, mi, s = (int(x) for x in m.groups())
         if s in (60, 61):
@@ -171,9 +179,23 @@ def parse_line(fields):
         return ('ok', ('IGNORE', p))
     sz = fields[2]
     if _SIZE_OK.match(sz):
-        size = int(sz)
+        try:
+            size = int(sz)
+        except ValueError:
+            # only possible cause for a pure ASCII digit string: CPython's
+            # int<->str conversion length limit (4300 digits by default)
+            dc = dc or 'size literal longer than the interpreter int conversion limit'
+            size = None
     elif sz.startswith('-'):
-        return ('reject', 'negative or malformed size')
+        try:
+            zero = int(sz) == 0
+        except ValueError:
+            zero = False
+        if not zero:
+            return ('reject', 'negative or malformed size')
+        # "-0", "-00", "-0_0": numeric and not negative, but hardly a size
+        dc = dc or 'minus zero size'
+        size = None
     else:
         try:
             int(sz)
@@ -203,13 +225,13 @@ def split_fields(line):
     return s.split()
 
 
-def parse(text):
-    """Unsigned Manifest text -> verdict (see module doc)."""
+def parse_ex(text):
+    """Unsigned Manifest text -> (verdict, payload, info) (see module doc)."""
     entries = []
     dc = None
     if '\r' in text.replace('\r\n', ''):
         dc = 'bare CR'
-    for line in text.split('\n'):
+    for n, line in enumerate(text.split('\n')):
         if line.endswith('\r'):
             line = line[:-1]
         f = split_fields(line)
@@ -220,14 +242,19 @@ def parse(text):
             continue
         st, e = parse_line(f)
         if st == 'reject':
-            return ('reject', e)
+            return ('reject', e, {'line': n, 'fields': f})
         if st == 'dontcare':
             dc = dc or e
         else:
             entries.append(e)
     if dc:
-        return ('dontcare', dc)
-    return ('ok', entries)
+        return ('dontcare', dc, None)
+    return ('ok', entries, None)
+
+
+def parse(text):
+    """Unsigned Manifest text -> verdict (see module doc)."""
+    return parse_ex(text)[:2]
 
 
 def entry_line(e):
